@@ -364,8 +364,11 @@ def run_unit(unit):
             pr.stdin.write(data2[:7])
             pr.stdin.flush()
             _time.sleep(0.7)
-            pr.stdin.write(data2[7:])
-            pr.stdin.close()
+            try:
+                pr.stdin.write(data2[7:])
+                pr.stdin.close()
+            except BrokenPipeError:
+                pass  # the tool stopped reading after the first piece: reported below (its output is incomplete)
             so = pr.stdout.read()
             se = pr.stderr.read()
             pr.wait(timeout=120)
